@@ -211,10 +211,10 @@ def split_cases(text):
     return cases
 
 
-def run_model(trace_path, out_path, raw=False, socket=False):
+def run_model(trace_path, out_path, raw=False, socket=False, ni=None):
     # the extracted list functions are not tail-recursive: megabyte values need a deep stack
-    rc, out = sh("ulimit -s unlimited 2>/dev/null || ulimit -s 1000000 2>/dev/null; %s %s %s %s > %s" % (
-        RUNNER, "--raw" if raw else "", "--socket" if socket else "", trace_path, out_path), timeout=1200)
+    rc, out = sh("ulimit -s unlimited 2>/dev/null || ulimit -s 1000000 2>/dev/null; %s %s %s %s %s > %s" % (
+        RUNNER, "--raw" if raw else "", "--socket" if socket else "", ("--ni " + ni) if ni else "", trace_path, out_path), timeout=1200)
     return rc == 0, out
 
 
@@ -463,10 +463,16 @@ def run_conc_suites(prop, cfg, tier, seed, work, report):
         if rc != 0:
             report["errors"].append("harness failed on suite %s: %s" % (tag, out[-500:]))
             continue
-        ok, out = run_model(tout, mobs)
+        nif = os.path.join(work, tag + ".ni")
+        ok, out = run_model(tout, mobs, ni=nif)
         if not ok:
             report["errors"].append("runner failed on %s: %s" % (tag, out[-500:]))
             continue
+        # per case: does the executed schedule keep clear of the read-modify-write windows
+        # (Spec/AtomicM.v ni_sched, evaluated by the extracted model)?
+        ni = dict(l.split(" ") for l in open(nif).read().splitlines() if l)
+        report["distribution"]["conc_schedules_without_interference"] = report["distribution"].get(
+            "conc_schedules_without_interference", 0) + sum(1 for v in ni.values() if v == "1")
         d, ncs = compare(tout, iobs, mobs)
         report["cases"] += ncs
         report["conc_cases"] = report.get("conc_cases", 0) + ncs
@@ -481,7 +487,8 @@ def run_conc_suites(prop, cfg, tier, seed, work, report):
             diffs.append((tag,) + x)
         for line in open(mon).read().splitlines():
             p = line.split(" ")
-            monitor.append({"kind": p[0], "case": p[1], "class": p[2] if len(p) > 2 else "", "trace": traces.get(p[1], []), "suite": tag})
+            monitor.append({"kind": p[0], "case": p[1], "class": p[2] if len(p) > 2 else "", "trace": traces.get(p[1], []), "suite": tag,
+                            "no_interference": ni.get(p[1]) == "1"})
         if not report["samples"]:
             cs = split_cases(open(tout).read())
             if cs:
